@@ -490,7 +490,7 @@ bool plan_valid(const Plan &p, std::string &why)
                 return bad("no group");
         if (p.cmd_cap() < 6)
                 return bad("command buffer capacity < 6");
-        if (p.buf_size > 1 << 16 || p.ubuf_size > 1 << 16 || p.ubuf_size < 0)
+        if (p.buf_size > 1 << 18 || p.ubuf_size > 1 << 16 || p.ubuf_size < 0)
                 return bad("buffer size");
         int nreg = p.registered_count();
         if (nreg < 1)
@@ -498,6 +498,7 @@ bool plan_valid(const Plan &p, std::string &why)
         if (p.cmd_cap() * 4 < nreg)
                 return bad("capacity < ceil(commands/4)");
         std::vector<int> per_group(p.groups.size(), 0);
+        bool empty_ev = false, empty_cmd = false;
         for (size_t i = 0; i < p.cmds.size(); i++) {
                 const CmdSpec &c = p.cmds[i];
                 if (c.registered) {
@@ -543,11 +544,17 @@ bool plan_valid(const Plan &p, std::string &why)
                                         return bad("text action in write/run script");
                                 if (s.text.find('\0') != std::string::npos)
                                         return bad("NUL in script text");
+                                if (s.act == A_SETTEXT && s.text.empty()) {
+                                        (c.ev ? empty_ev : empty_cmd) = true;
+                                        continue;
+                                }
                                 if ((s.act == A_SETTEXT || s.act == A_APPEND) && p.prop != "C03R" &&
                                     (s.text.size() < 2 || s.text[0] != '~' || (s.text[1] == 'e') != (c.ev != 0)))
                                         return bad("handler text must carry its producer marker (~e / ~c): units have to be attributable");
                         }
         }
+        if (empty_ev && empty_cmd && p.prop != "C03R")
+                return bad("empty handler texts in both producers (units would not be attributable)");
         for (int n : per_group)
                 if (n < 1)
                         return bad("empty group");
